@@ -18,6 +18,9 @@ class ConnSpec(D.Spec):
         self.prop = "C%02d" % self.num
         self.model_fn = ("conn_proj %d" % self.num, "check_conn_proj")
         self.monitor_fn = ("mon_c%02d" % self.num, "mon_c%02d" % self.num)
+        # the monitors that only judge contract-abiding histories (tr_contract) are not shown a history in which the
+        # generator itself handed an identifier in flight to a new send (Mon/MonContract.v)
+        self.contract_fn = "mon_contract" if self.num in (6, 7, 8, 12, 13, 14, 15) else None
         self.corpus_file = os.path.join(C.CORPUS, "%s.cases" % self.prop)
         self.rule = ("seeded histories of 8-60 API calls on GenericConnection (roles Client/Server/Any, v3.1.1/v5.0/undetermined, "
                      "u16 and u32 ids, all option flags, optional session restore): contract-respecting local calls (ids from "
